@@ -583,21 +583,32 @@ Proof. reflexivity. Qed.
 (* ---------- the log checker is sound ---------- *)
 Local Arguments exec : simpl never.
 
-Lemma search_sound : forall fuel s log, search fuel s log = true ->
+Lemma try_cands_true : forall rec s log cs vis,
+  fst (try_cands rec s log cs vis) = true ->
+  exists p s' vis0, exec s (LLin (fst (fst p)) (snd (fst p)) (snd p)) = Some s' /\ fst (rec s' vis0) = true.
+Proof.
+  induction cs as [|p cs IH]; simpl; intros vis H; try discriminate.
+  destruct (exec s (LLin (fst (fst p)) (snd (fst p)) (snd p))) as [s1|] eqn:E; [|eauto].
+  destruct (consistent s1 log); [|eauto].
+  destruct (fst (rec s1 vis)) eqn:Er; [|eauto].
+  exists p, s1, vis. auto.
+Qed.
+
+Lemma search_sound : forall fuel s log vis, fst (search fuel s log vis) = true ->
   exists ls s', visible ls = log /\ run s ls = Some s' /\ quiescent s' = true.
 Proof.
-  induction fuel as [|f IH]; simpl; intros s log H; try discriminate.
+  induction fuel as [|f IH]; simpl; intros s log vis H; try discriminate.
   destruct log as [|[t o|t o r] rest].
   - exists [], s. auto.
   - destruct (exec s (LInv t o)) as [s1|] eqn:E; try discriminate.
-    destruct (IH _ _ H) as [ls [s' [H1 [H2 H3]]]]. exists (LInv t o :: ls), s'. simpl. rewrite E, H1. auto.
+    destruct (IH _ _ _ H) as [ls [s' [H1 [H2 H3]]]]. exists (LInv t o :: ls), s'. simpl. rewrite E, H1. auto.
   - destruct (exec s (LRes t o r)) as [s1|] eqn:E.
-    + destruct (IH _ _ H) as [ls [s' [H1 [H2 H3]]]]. exists (LRes t o r :: ls), s'. simpl. rewrite E, H1. auto.
+    + destruct (IH _ _ _ H) as [ls [s' [H1 [H2 H3]]]]. exists (LRes t o r :: ls), s'. simpl. rewrite E, H1. auto.
     + destruct (find_t t (pend s)); try discriminate.
-      apply existsb_exists in H. destruct H as [p [_ Hp]].
-      destruct (exec s (LLin (fst (fst p)) (snd (fst p)) (snd p))) as [s1|] eqn:E1; try discriminate.
-      apply andb_prop in Hp. destruct Hp as [_ Hp].
-      destruct (IH _ _ Hp) as [ls [s' [H1 [H2 H3]]]].
+      destruct (seen (length (ERes t o r :: rest)) s vis); try discriminate.
+      match type of H with fst (if fst ?X then _ else _) = true => destruct (fst X) eqn:Et; try discriminate end.
+      apply try_cands_true in Et. destruct Et as [p [s1 [vis0 [E1 Hp]]]].
+      destruct (IH _ _ _ Hp) as [ls [s' [H1 [H2 H3]]]].
       exists (LLin (fst (fst p)) (snd (fst p)) (snd p) :: ls), s'. simpl. rewrite E1, H1. auto.
 Qed.
 
